@@ -1,21 +1,20 @@
 SPECIFICATION Spec
 CONSTANTS
   W = {"w1", "w2"}
-  MaxBody = 1
+  MaxBody = 0
   Faults = 1
   Stale = {1}
   DirMissing = FALSE
-  AnySplit = FALSE
-  KeepHist = TRUE
-  Reusers = {}
-  MaxRounds = 1
+  AnySplit = TRUE
+  KeepHist = FALSE
+  Reusers = {"w1"}
+  MaxRounds = 2
   MinBody = 0
 INVARIANT DestOldOrNew
 INVARIANT FailedIsClean
 INVARIANT DoneIsNew
 INVARIANT TempsDisjoint
-CONSTRAINT OneAbnormal
-CONSTRAINT MixedOrig
-ACTION_CONSTRAINT Canonical
-ACTION_CONSTRAINT EmitPath
+INVARIANT DeadIsIntact
+INVARIANT StaleKept
+PROPERTY OthersUntouched
 CHECK_DEADLOCK FALSE
